@@ -216,7 +216,7 @@ func c16CliCases(tier string) []c16CliCase {
 
 func c16CliEval(tier string, i int) CaseResult {
 	cs := c16CliCases(tier)[i]
-	cr := CaseResult{Desc: fmt.Sprintf("client=%s history=%s", cs.Mode, strings.Join(cs.Hist, " ")), Nontrivial: true, States: 0, Trans: 1}
+	cr := CaseResult{Desc: fmt.Sprintf("client=%s history=%s", cs.Mode, strings.Join(cs.Hist, " ")), Nontrivial: true}
 	var viol []explore.Violation
 	obs := &hx.Log{}
 	res := vsched.Run(vsched.Config{}, func() {
@@ -354,7 +354,7 @@ func c16CliEval(tier string, i int) CaseResult {
 	cr.ObsKey = o.ObsKey
 	cr.Violations = o.Violations
 	cr.Broken = o.Broken
-	cr.States = 1
+	cr.Trans = len(cs.Hist)
 	return cr
 }
 
